@@ -12,6 +12,7 @@ import (
 	"github.com/cinar/indicator/v2/strategy/compound"
 	"github.com/cinar/indicator/v2/strategy/decorator"
 	smomentum "github.com/cinar/indicator/v2/strategy/momentum"
+	strend "github.com/cinar/indicator/v2/strategy/trend"
 	svolume "github.com/cinar/indicator/v2/strategy/volume"
 	"github.com/cinar/indicator/v2/volume"
 )
@@ -158,6 +159,13 @@ func registerCompounds() {
 // the pinned tests use - in particular levels at the indicator's neutral value (50 for RSI / MFI, 0.5 for the stochastic
 // RSI), where a numeric fill value would be mistaken for a signal.
 func registerLevelVariants() {
+	// the Alligator strategy with the lines in rising order (the jaw the FASTEST line, all three distinct): Compute
+	// synchronises the three to CommonPeriod, so no line may be taken for the slowest one
+	register(Pipe{Name: "strategy/trend.AlligatorStrategy@rising", Class: "strategy", Inputs: snapIn, Params: ps("jaw", "teeth", "lip"),
+		Default: cfgOf(5, 8, 13), Fields: []string{"Close"},
+		Make: func(cfg []int) Inst {
+			return stratInst(strend.NewAlligatorStrategyWith(cfg[0], cfg[1], cfg[2]), nil)
+		}})
 	type lv struct{ a, b float64 }
 	for _, l := range []lv{{30, 50}, {50, 70}, {10, 90}} {
 		l := l
